@@ -11,8 +11,8 @@ import FV.Model.Scalar
   * the grid is `List (List Bool)`; the constructor's assertions (at least one row, equal row lengths)
     are `Grid.wf`; `cell` reads `m[i][j]` (default `false` outside, never reached for a well-formed grid
     because every loop range of the code is bounded by `nrows` / `ncols`).
-  * the mutable `nrows × nrows` table `rect` of `_get_trunks_matrix` is a function `Nat → Nat → Option Interval`
-    with point update `upd`; the `for` loops are `forUp` / `forDown` over the same index ranges in the same
+  * the mutable `nrows × nrows` table `rect` of `_get_trunks_matrix` is a (wrapped) function
+    `Nat → Nat → Option Interval` with point update `upd`; the `for` loops are `forUp` / `forDown` over the same index ranges in the same
     order, so the in-place reads see exactly the entries the Python reads.
   * Python `set`s of rectangles are duplicate-free lists (order is not part of the model: the harness
     canonicalises; `strop_decomposition` takes the first element of a set iteration, so its model returns the
@@ -112,36 +112,38 @@ def rowInterval (R : List Bool) : Option Interval :=
 
 /-! ### `_get_trunks_matrix` -/
 
-abbrev Table := Nat → Nat → Option Interval
+/-- the table `rect` (wrapped in a structure so that compiled code evaluates every update eagerly, as Python does). -/
+structure Table where
+  get : Nat → Nat → Option Interval
 
 /-- `rect[i][j] = v`. -/
 def upd (t : Table) (i j : Nat) (v : Option Interval) : Table :=
-  fun i' j' => if i' = i ∧ j' = j then v else t i' j'
+  ⟨fun i' j' => if i' = i ∧ j' = j then v else t.get i' j'⟩
 
 /-- diagonal + upper triangle. -/
 def fillTable (M : Grid) : Table :=
   let n := M.length
-  let t0 : Table := fun _ _ => none
+  let t0 : Table := ⟨fun _ _ => none⟩
   -- for i in range(nrows): rect[i][i] = _row_interval(M[i])
   let t1 := forUp 0 n (fun i t => upd t i i (rowInterval (M.getD i []))) t0
   -- for column in range(1, nrows): for row in range(column-1, -1, -1): …
   forUp 1 (n - 1) (fun column t =>
     forDown 0 column (fun row t =>
-      upd t row column (inter (t (row + 1) column) (t row (column - 1)))) t) t1
+      upd t row column (inter (t.get (row + 1) column) (t.get row (column - 1)))) t) t1
 
 /-- "Remove the non-prime rectangles by rows" (in place). -/
 def prune1 (n : Nat) (t : Table) : Table :=
   -- for row in range(nrows-1): for column in range(row, nrows-1): …
   forUp 0 (n - 1) (fun row t =>
     forUp row (n - 1 - row) (fun column t =>
-      if t row column = t row (column + 1) then upd t row column none else t) t) t
+      if t.get row column = t.get row (column + 1) then upd t row column none else t) t) t
 
 /-- "Remove the non-prime rectangles by columns" (in place). -/
 def prune2 (n : Nat) (t : Table) : Table :=
   -- for column in range(1, nrows): for row in range(column, 0, -1): …
   forUp 1 (n - 1) (fun column t =>
     forDown 1 column (fun row t =>
-      if t row column = t (row - 1) column then upd t row column none else t) t) t
+      if t.get row column = t.get (row - 1) column then upd t row column none else t) t) t
 
 def finalTable (M : Grid) : Table := prune2 M.length (prune1 M.length (fillTable M))
 
@@ -151,7 +153,7 @@ def trunksMatrix (M : Grid) : List SRect :=
   let t := finalTable M
   (List.range n).flatMap fun row =>
     (List.range' row (n - row)).filterMap fun column =>
-      (t row column).map fun I => ⟨⟨row, column⟩, I⟩
+      (t.get row column).map fun I => ⟨⟨row, column⟩, I⟩
 
 /-! ### `_empty_corners`, `_get_potential_trunks` -/
 
